@@ -4,6 +4,9 @@ set -u
 cd /verif
 . scripts/env.sh
 scripts/build.sh || exit 2
+if [ "$1" = "C20" ]; then
+  scripts/build.sh race || exit 2
+fi
 if [ "$1" = "replay" ]; then
   exec bin/vcheck replay "$2"
 fi
